@@ -1,11 +1,17 @@
 use std::io;
 use std::ops::{Add, AddAssign, Sub};
 use std::slice::SliceIndex;
+#[cfg(not(indicatif_verif))]
 use std::sync::{Arc, RwLock, RwLockWriteGuard};
+#[cfg(indicatif_verif)]
+use verif_simrt::sync::{Arc, RwLock, RwLockWriteGuard};
 use std::thread::panicking;
 use std::time::Duration;
+#[cfg(not(indicatif_verif))]
 #[cfg(not(target_arch = "wasm32"))]
 use std::time::Instant;
+#[cfg(indicatif_verif)]
+use verif_simrt::time::Instant;
 
 use console::Term;
 #[cfg(target_arch = "wasm32")]
